@@ -374,4 +374,19 @@ def compatible (p : Ty) (a : Val) : Bool :=
   match a with
   | .f64 _ => p.isNumeric || p == .list
   | a => a.ty == some p || p == .list
+/-- property-level notion "the argument fits the parameter": an ECAL number for a numeric
+    parameter, or a (non-NULL) value of exactly the parameter's type -/
+def Fits (p : Ty) (a : Val) : Prop :=
+  (∃ x, a = .f64 x ∧ p.isNumeric = true) ∨ (a.ty = some p ∧ ∀ x, a ≠ .f64 x)
+/-- every argument fits its parameter, and there are exactly as many -/
+def AllFit : List Ty → List Val → Prop
+  | [], [] => True
+  | p :: ps, a :: as => Fits p a ∧ AllFit ps as
+  | _, _ => False
+
+/-- the received values have exactly the parameter types -/
+def TypesMatch : List Val → List Ty → Prop
+  | [], [] => True
+  | v :: vs, p :: ps => v.ty = some p ∧ TypesMatch vs ps
+  | _, _ => False
 end Ecal.Bridge
